@@ -6,11 +6,17 @@ import json, os, subprocess, sys
 V = "/verif"
 MAP = {"1": ["C09", "C10", "C11", "C07"], "2": ["C11", "C10", "C07"], "3": ["C08", "C07"], "4": ["C03", "C02", "C01"], "5": ["C01", "C05", "C06"],
        "6": ["C16"], "7": ["C12", "C13", "C07"], "8": ["C05", "C09", "C03"], "9": ["C20", "C01", "C15"], "10": ["C15", "C01"], "11": ["C19", "C20"],
-       "12": ["C16"]}
+       "12": ["C16"],
+       # batch 2
+       "13": ["C09", "C10", "C11"], "14": ["C10", "C07"], "15": ["C08", "C07"], "16": ["C03", "C02"], "17": ["C01", "C05", "C06"], "18": ["C16", "C17"],
+       "19": ["C14", "C07", "C13"], "20": ["C10", "C03", "C02"], "21": ["C17", "C16"], "22": ["C15", "C17"], "23": ["C19"], "24": ["C16", "C03"],
+       "25": ["C05", "C01"], "26": ["C20"]}
+if len(sys.argv) > 1:
+    MAP = {k: v for k, v in MAP.items() if k in sys.argv[1:]}
 bad = 0
 for k in sorted(os.listdir(f"{V}/refactors"), key=lambda x: int(x) if x.isdigit() else 0):
     d = f"{V}/refactors/{k}"
-    if not os.path.exists(f"{d}/patch.diff"):
+    if not os.path.exists(f"{d}/patch.diff") or k not in MAP:
         continue
     subprocess.run(["git", "-C", "/repo", "checkout", "-q", "--", "."], check=True)
     if subprocess.run(["git", "-C", "/repo", "apply", f"{d}/patch.diff"]).returncode != 0:
